@@ -1,8 +1,12 @@
 #!/bin/sh
-# runs every check of a tier in sequence; prints one summary line per property
+# runs every check of a tier in sequence; prints one summary line per property.  usage: run_all.sh [tier] [first-property]
 tier=${1:-quick}
+first=${2:-C01}
 cd "$(dirname "$0")"
+go=0
 for p in C01 C02 C03 C04 C05 C06 C07 C08 C09 C10 C11 C12 C13 C14 C15 C16 C17 C18 C19 C20; do
+  [ "$p" = "$first" ] && go=1
+  [ $go = 1 ] || continue
   start=$(date +%s)
   ./check $p --tier $tier > /tmp/verif-$tier-$p.log 2>&1; rc=$?
   echo "$p rc=$rc $(( $(date +%s) - start ))s $(tail -1 /tmp/verif-$tier-$p.log)"
